@@ -4,11 +4,13 @@ import (
 	"bytes"
 	"encoding/json"
 	"fmt"
+	tcpb "github.com/google/go-tdx-guest/proto/checkconfig"
 	"sync"
 	"time"
 
 	gtb "github.com/google/gce-tcb-verifier/gcetcbendorsement"
 	epb "github.com/google/gce-tcb-verifier/proto/endorsement"
+	"github.com/google/gce-tcb-verifier/sev"
 	"github.com/google/gce-tcb-verifier/verify"
 	spb "github.com/google/go-sev-guest/proto/sevsnp"
 	tpb "github.com/google/go-tdx-guest/proto/tdx"
@@ -25,6 +27,7 @@ type listRow struct {
 	Listed   []uint32 `json:"listed"`
 	Svsm     bool     `json:"svsm"`
 	Short2   bool     `json:"short2"`
+	Base     string   `json:"base"`
 	Meas     string   `json:"meas"`
 	Req      uint32   `json:"req"`
 	Digest   string   `json:"digest"`
@@ -33,6 +36,7 @@ type listRow struct {
 	Emptyrow bool     `json:"emptyrow"`
 	Mrtd     string   `json:"mrtd"`
 	Ram      int      `json:"ram"`
+	Table    string   `json:"table"`
 }
 
 func flipBit(b []byte) []byte {
@@ -122,6 +126,14 @@ func runListing(m *Material, r listRow) (accepted bool, errText string, listed, 
 			want = Meas("other-fw")
 		}
 		att := &spb.Attestation{Report: Report(meas), CertificateChain: &spb.CertificateChain{VcekCert: m.Vcek.Raw}}
+		if r.Table == "other" {
+			// the attestation's certificate table delivers another genuine endorsement, which lists the
+			// report's measurement for every count; the caller's endorsement e is the one validated against
+			og := GoldenSpec{Digest: Meas("other-fw"), Timestamp: gs.Timestamp, ClSpec: 10, Cert: m.SignCert.Raw, Svn: 1,
+				Snp: map[uint32][]byte{1: meas, 2: meas, 4: meas}}
+			ob, _ := proto.Marshal(Endorse(og.Proto(), m.S))
+			att.CertificateChain.Extras = map[string][]byte{sev.GCEFwCertGUID: ob}
+		}
 		switch r.Entry {
 		case "SNP":
 			// the verifier sees the document as parsed from the signed bytes
@@ -138,7 +150,11 @@ func runListing(m *Material, r listRow) (accepted bool, errText string, listed, 
 		case "SevValidate":
 			err = gtb.SevValidate(ctx, att, &gtb.SevValidateOptions{Endorsement: e, RootsOfTrust: roots, Now: now, ExpectedLaunchVmsas: r.Req})
 			if pol, perr := gtb.SevPolicy(ctx, e, &gtb.SevPolicyOptions{LaunchVmsas: r.Req, AllowUnspecifiedVmsas: true}); perr == nil && r.Req != 0 {
-				if len(pol.Measurement) != 0 && !in(pol.Measurement, listedFor) {
+				// a named count pins the measurement: a policy without one leaves the report's measurement
+				// unchecked by go-sev-guest, so any report would validate against it
+				if len(pol.Measurement) == 0 {
+					policyBad = fmt.Sprintf("SevPolicy for %d VMSAs (with AllowUnspecifiedVmsas also set) carries no measurement: the named count is ignored and every report validates against the policy", r.Req)
+				} else if !in(pol.Measurement, listedFor) {
 					policyBad = fmt.Sprintf("SevPolicy for %d VMSAs carries a measurement that is not the one listed for that count", r.Req)
 				}
 			}
@@ -171,9 +187,20 @@ func runListing(m *Material, r listRow) (accepted bool, errText string, listed, 
 		q := proto.Clone(m.Quote).(*tpb.QuoteV4)
 		q.TdQuoteBody.MrTd = measOf(r.Mrtd)
 		qb, _ := proto.Marshal(&tpmpb.Attestation{TeeAttestation: &tpmpb.Attestation_TdxAttestation{TdxAttestation: q}})
+		var base *tcpb.Policy
+		if r.Base == "mixed" {
+			// the caller's base policy already has an allow-list: one endorsed value (if any) and the quote's own MRTD
+			lst := [][]byte{measOf(r.Mrtd)}
+			if len(listedFor) > 0 {
+				lst = append([][]byte{listedFor[0]}, lst...)
+			} else if len(listed) > 0 {
+				lst = append([][]byte{listed[0]}, lst...)
+			}
+			base = &tcpb.Policy{TdQuoteBodyPolicy: &tcpb.TDQuoteBodyPolicy{AnyMrTd: lst}}
+		}
 		switch r.Entry {
 		case "TdxPolicy":
-			pol, perr := gtb.TdxPolicy(ctx, e, &gtb.TdxPolicyOptions{RAMGiB: r.Ram})
+			pol, perr := gtb.TdxPolicy(ctx, e, &gtb.TdxPolicyOptions{RAMGiB: r.Ram, Base: base})
 			if perr != nil {
 				err = perr
 				break
@@ -194,7 +221,7 @@ func runListing(m *Material, r listRow) (accepted bool, errText string, listed, 
 			}
 			err = tdxvalidate.TdxQuote(q, vopts)
 		case "TdxValidate":
-			err = gtb.TdxValidate(ctx, qb, &gtb.TdxValidateOptions{Endorsement: e, RootsOfTrust: roots, Now: now, ExpectedRAMGiB: r.Ram})
+			err = gtb.TdxValidate(ctx, qb, &gtb.TdxValidateOptions{Endorsement: e, RootsOfTrust: roots, Now: now, ExpectedRAMGiB: r.Ram, BasePolicy: base})
 		case "cli_tdx":
 			_, err = RunCLI(map[string][]byte{"endo.bin": eb, "quote.bin": qb, "root.pem": pemOf(m.RootCert)}, now, nil,
 				"tdx", "--ram_gib", fmt.Sprint(r.Ram), "validate", "quote.bin", "--endorsement", "endo.bin", "--root_cert", "root.pem")
@@ -278,5 +305,5 @@ func RunC02(run *vk.Run) {
 	})
 	run.AddDrift(drift)
 	run.Exhaustive = true
-	run.Rule = "every row of Listing.tla (SNP: subsets of VMSA counts x SVSM x zero-length entry x report measurement incl. one-bit neighbour / unlisted / short x requested count x expected digest x entry point; TDX: subsets of RAM/early-accept rows x zero-length row x quote MRTD x requested RAM x entry point; 19104 rows) is realised as a genuinely signed endorsement plus report / quote and executed; the predicates use the listed sets computed by the harness from the endorsement"
+	run.Rule = "every row of Listing.tla (SNP: subsets of VMSA counts x SVSM x zero-length entry x report measurement incl. one-bit neighbour / unlisted / short x requested count x expected digest x entry point, and for SevValidate / the CLI an attestation whose own certificate table carries another genuine endorsement listing the report's measurement; TDX: subsets of RAM/early-accept rows x zero-length row x quote MRTD x requested RAM x entry point; " + fmt.Sprint(len(em.Cases)) + " rows) is realised as a genuinely signed endorsement plus report / quote and executed; the predicates use the listed sets computed by the harness from the endorsement"
 }
